@@ -22,6 +22,7 @@ def exact_applicable(c, o):
 
 
 SPEC = {
+    "text_fidelity": True,
     "prop_file": ["Properties/C01.v", "Properties/C02_kernel.v"],
     "gen": solcore.gen,
     "oracle": oracle,
